@@ -10,6 +10,7 @@
   checked by running the real code twice (harness h_stream, sub-check `rng.twice`).
 -/
 import PopsModel.Lemmas.StreamText
+import PopsModel.Model.StreamSpec
 namespace Pops
 
 /-! ### Seeding -/
@@ -433,5 +434,242 @@ example : readKeyValuePairs ',' '=' "soil=7,weather = 12,".toList = .ok [("weath
   decide +kernel
 example : readKeyValuePairs ',' '=' "soil=7,,weather=12".toList = .error .invalid_argument := by
   decide +kernel
+
+/-! ### "Made deterministic": what the property allows against what the code uses
+
+`specUses c` (Model/StreamSpec.lean) is the sentence of the property read as a table: the stream of
+a process may matter only if the process takes part in the run and its flag - if it has one - does
+not say deterministic. `usesRun c` is the model of the code. The full sentence
+(`C06_deterministic_mode_full`) fails in exactly three regions, the open findings F28, F29, F32
+(`C06_code_outside_spec`); outside them it is proved (`C06_deterministic_mode_partial`), and for
+every stream outside `usesRun` it holds in every configuration
+(`C06_unused_seed_run_irrelevant`). -/
+
+/-- Membership in `usesRun`: some process that takes part in the run may draw from the stream. -/
+theorem C06_mem_usesRun (c : UseCfg) (n : StreamName) :
+    n ∈ usesRun c ↔ ∃ P, enabled c P = true ∧ n ∈ uses P c := by
+  have hall : ∀ P : Proc, P ∈ Proc.all := by intro P; cases P <;> decide
+  simp only [usesRun, List.mem_flatMap, List.mem_filter]
+  constructor
+  · rintro ⟨P, ⟨_, he⟩, hn⟩; exact ⟨P, he, hn⟩
+  · rintro ⟨P, he, hn⟩; exact ⟨P, ⟨hall P, he⟩, hn⟩
+
+/-- Every process of the model stays within the table `uses`. -/
+theorem C06_model_process_within {σ : Type} (c : UseCfg) (P : Proc) (α : Type) (a : Act σ α)
+    (h : ModelProcess c P α a) : a.Within (uses P c) := by
+  induction h with
+  | weather cells normal store w => exact weatherAct_within c cells normal store w
+  | lethal suitable below hosts count shuffle apply w => exact lethalAct_within c suitable below hosts count shuffle apply w
+  | survival suitable partial_ hosts countI countE shuffleI shuffleE applyI applyE w =>
+    exact survivalAct_within c suitable partial_ hosts countI countE shuffleI shuffleE applyI applyE w
+  | generate suitable infected poisson generated toSoil uniform store w =>
+    exact generateAct_within c suitable infected poisson generated toSoil uniform store w
+  | kernel hinj eligible coin natural anthro pureNatural pureAnthro =>
+    exact (libraryKernelAct_within c hinj eligible coin natural anthro pureNatural pureAnthro).mono
+      (by intro n hn; simp [uses, usesDisperse, hn])
+  | land positive hasSusceptible pick uniform apply target w =>
+    exact (landAct_within c positive hasSusceptible pick uniform apply target w).mono
+      (by intro n hn; simp only [uses, usesDisperse, List.mem_append]; exact .inl (.inr hn))
+  | disperse kernel hk suitable dispersers inside outside positive hasSusceptible pick uniform apply
+      soilCount poisson shuffle released afterRelease cellIndex w =>
+    exact C06_within_disperse c kernel hk suitable dispersers inside outside positive hasSusceptible pick uniform
+      apply soilCount poisson shuffle released afterRelease cellIndex w
+  | spread gen disp _ _ w ihg ihd => exact C06_within_spread c gen disp ihg ihd w
+  | overpopulation suitable over kernel shuffleFrom leave moves shuffleTo arrive w =>
+    exact overpopulationAct_within c suitable over kernel shuffleFrom leave moves shuffleTo arrive w
+  | movement rows shuffle shuffleE shuffleM exposedMoved infectedMoved apply w =>
+    exact movementAct_within c rows shuffle shuffleE shuffleM exposedMoved infectedMoved apply w
+
+/-- **The part that holds in every configuration**: the seed of a stream outside `usesRun c` - no
+    process that takes part in the run can draw from it - is irrelevant for every process of the
+    model. -/
+theorem C06_unused_seed_run_irrelevant {σ : Type} (E : Engine σ) (c : UseCfg) (P : Proc) (α : Type) (a : Act σ α)
+    (hP : enabled c P = true) (hm : ModelProcess c P α a) (n : StreamName) (hn : n ∉ usesRun c) :
+    SeedIrrelevant E a n := by
+  intro f v
+  have hn' : n ∉ uses P c := fun h => hn ((C06_mem_usesRun c n).2 ⟨P, hP, h⟩)
+  exact (C06_unused_seed_irrelevant E P c a (C06_model_process_within c P α a hm) n hn' f v).1
+
+/-- The full sentence: in every configuration, for every process of the model that takes part in
+    the run, the result does not depend on the seed of a stream the property does not allow the
+    run to depend on (the process of that stream is disabled, or made deterministic by its flag). -/
+def C06_deterministic_mode_full : Prop :=
+  ∀ (σ : Type) (E : Engine σ) (c : UseCfg) (P : Proc) (α : Type) (a : Act σ α),
+    enabled c P = true → ModelProcess c P α a → ∀ n, n ∉ specUses c → SeedIrrelevant E a n
+
+/-- Where the code uses a stream the property does not allow: exactly the regions of the three
+    open findings. -/
+theorem C06_code_outside_spec (c : UseCfg) (n : StreamName) (hu : n ∈ usesRun c) (hs : n ∉ specUses c) :
+    (n = .establishment ∧ f28Region c = true) ∨ (n = .movement ∧ f29Region c = true) ∨
+    (n = .anthropogenicDispersal ∧ f32Region c = true) := by
+  have hs' : specAllows c n = false := by
+    cases h : specAllows c n with
+    | false => rfl
+    | true => exact absurd (List.mem_filter.mpr ⟨StreamName.mem_all n, h⟩) hs
+  obtain ⟨P, hP, hn⟩ := (C06_mem_usesRun c n).1 hu
+  cases hinj : c.injectedKernel with
+  | none =>
+    cases n <;> cases P <;>
+      simp [uses, usesGenerate, usesDisperse, kernelUses, establishmentDraws, enabled, specAllows, clientDeclares,
+        processStochastic, hinj, f28Region, f29Region, f32Region] at hn hP hs' ⊢ <;> grind
+  | some l =>
+    cases n <;> cases P <;>
+      simp [uses, usesGenerate, usesDisperse, kernelUses, establishmentDraws, enabled, specAllows, clientDeclares,
+        processStochastic, hinj, f28Region, f29Region, f32Region] at hn hP hs' ⊢ <;> grind
+
+/-- The property never allows more than the code uses. -/
+theorem C06_spec_within_code (c : UseCfg) (n : StreamName) (hs : n ∈ specUses c) : n ∈ usesRun c := by
+  have hs' : specAllows c n = true := (List.mem_filter.mp hs).2
+  rw [C06_mem_usesRun]
+  simp only [specAllows, Bool.or_eq_true] at hs'
+  rcases hs' with hcl | hpr
+  · refine ⟨.disperse, rfl, ?_⟩
+    unfold clientDeclares at hcl
+    cases hinj : c.injectedKernel with
+    | none => simp [hinj] at hcl
+    | some l =>
+      simp [hinj] at hcl
+      simp [uses, usesDisperse, kernelUses, hinj, hcl]
+  · cases n
+    case disperserGeneration => exact ⟨.generate, rfl, by simp_all [processStochastic, uses, usesGenerate]⟩
+    case naturalDispersal => exact ⟨.disperse, rfl, by simp_all [processStochastic, uses, usesDisperse, kernelUses]⟩
+    case anthropogenicDispersal =>
+      exact ⟨.disperse, rfl, by simp_all [processStochastic, uses, usesDisperse, kernelUses]⟩
+    case establishment =>
+      exact ⟨.disperse, rfl, by simp_all [processStochastic, uses, usesDisperse, establishmentDraws]⟩
+    case weather => exact ⟨.weather, by simp_all [processStochastic, enabled], by simp [uses]⟩
+    case lethalTemperature => exact ⟨.lethal, by simp_all [processStochastic, enabled], by simp [uses]⟩
+    case movement => exact ⟨.movement, by simp_all [processStochastic, enabled], by simp [uses]⟩
+    case overpopulation => exact ⟨.overpopulation, by simp_all [processStochastic, enabled], by simp [uses]⟩
+    case survivalRate => exact ⟨.survival, by simp_all [processStochastic, enabled], by simp [uses]⟩
+    case soil => exact ⟨.disperse, rfl, by simp_all [processStochastic, uses, usesDisperse]⟩
+
+/-- The three extra hypotheses of the partial theorem are the negations of the regions the driver
+    evaluates. -/
+theorem C06_region_iff (c : UseCfg) :
+    (f28Region c = false ↔ (c.hosts ≤ 1 ∨ c.establishmentStochastic = true)) ∧
+    (f29Region c = false ↔ (c.useMovements = false ∨ c.movementStochastic = true)) ∧
+    (f32Region c = false ↔ (c.useAnthro = false ∨ c.dispersalStochastic = true ∨
+      c.anthroKernel.randomByType = true ∨ c.injectedKernel ≠ none)) := by
+  refine ⟨?_, ?_, ?_⟩
+  · simp only [f28Region, Bool.and_eq_false_iff, Bool.not_eq_false', decide_eq_false_iff_not]
+    constructor
+    · rintro (h | h)
+      · exact .inr h
+      · exact .inl (by omega)
+    · rintro (h | h)
+      · exact .inr (by omega)
+      · exact .inl h
+  · simp only [f29Region, Bool.and_eq_false_iff, Bool.not_eq_false']
+  · cases hi : c.injectedKernel <;> cases h1 : c.useAnthro <;> cases h2 : c.dispersalStochastic <;>
+      cases h3 : c.anthroKernel.randomByType <;> simp [f32Region, hi, h1, h2, h3]
+
+/-- **The sentence outside the three open findings.** If establishment is stochastic or there is
+    at most one host (not F28), movements are off or `movement_stochasticity` is on (not F29), and
+    the anthropogenic kernel is off or dispersal is stochastic or the anthropogenic kernel type is
+    random by definition or the kernel is the client's (not F32), then for every process of the
+    model that takes part in the run the seed of every stream the property does not allow is
+    irrelevant. -/
+theorem C06_deterministic_mode_partial {σ : Type} (E : Engine σ) (c : UseCfg) (P : Proc) (α : Type) (a : Act σ α)
+    (hP : enabled c P = true) (hm : ModelProcess c P α a)
+    (h28 : c.hosts ≤ 1 ∨ c.establishmentStochastic = true)
+    (h29 : c.useMovements = false ∨ c.movementStochastic = true)
+    (h32 : c.useAnthro = false ∨ c.dispersalStochastic = true ∨ c.anthroKernel.randomByType = true ∨
+      c.injectedKernel ≠ none)
+    (n : StreamName) (hn : n ∉ specUses c) : SeedIrrelevant E a n := by
+  apply C06_unused_seed_run_irrelevant E c P α a hP hm n
+  intro hu
+  obtain ⟨r28, r29, r32⟩ := C06_region_iff c
+  rcases C06_code_outside_spec c n hu hn with ⟨_, h⟩ | ⟨_, h⟩ | ⟨_, h⟩
+  · rw [r28.2 h28] at h; cases h
+  · rw [r29.2 h29] at h; cases h
+  · rw [r32.2 h32] at h; cases h
+
+/-- The engine of the counter-examples: seeding with `v` gives the state `v`, a draw returns the
+    state and advances it by one. -/
+def counterEngine : Engine Nat := ⟨id, fun g => (g, g + 1)⟩
+
+/-- F28. Two hosts, `establishment_stochasticity = false`: one landing (`MultiHostPool::disperser_to`)
+    on a cell with susceptible hosts still draws the receiving host from the establishment stream;
+    with the establishment seed 0 host 0 receives the disperser, with seed 1 host 1 - while
+    the property does not allow the run to depend on that seed. Hence the full sentence fails. -/
+theorem C06_deterministic_establishment_multi_host_fails :
+    (∃ (c : UseCfg) (a : Act Nat Nat), c.establishmentStochastic = false ∧ c.hosts = 2 ∧ f28Region c = true ∧
+      ModelProcess c .disperse Nat a ∧ StreamName.establishment ∉ specUses c ∧
+      ¬ SeedIrrelevant counterEngine a .establishment) ∧
+    ¬ C06_deterministic_mode_full := by
+  let c : UseCfg := { establishmentStochastic := false, hosts := 2 }
+  let a : Act Nat Nat :=
+    landAct c (fun _ _ => true) (fun _ _ => true) (fun g => (g % 2, g + 1)) (fun g => (g, g + 1))
+      (fun _ _ host _ => host) 0 0
+  have hm : ModelProcess c .disperse Nat a := .land _ _ _ _ _ _ _
+  have hs : StreamName.establishment ∉ specUses c := by decide
+  have hdep : ¬ SeedIrrelevant counterEngine a .establishment := by
+    intro h
+    have := h (fun _ => 0) 1
+    revert this
+    decide
+  exact ⟨⟨c, a, rfl, rfl, by decide, hm, hs, hdep⟩,
+    fun hfull => hdep (hfull Nat counterEngine c .disperse Nat a rfl hm .establishment hs)⟩
+
+/-- F29. Host movements on, `movement_stochasticity = false`: a movement row
+    (`HostPool::move_hosts_from_to`) still draws the classes of the moved hosts from the movement
+    stream - the flag is read nowhere; the result differs between the movement seeds 0 and 1 -
+    while the property does not allow the run to depend on that seed. Hence the full sentence fails. -/
+theorem C06_movement_stochasticity_ignored :
+    (∃ (c : UseCfg) (a : Act Nat Nat), c.useMovements = true ∧ c.movementStochastic = false ∧ f29Region c = true ∧
+      enabled c .movement = true ∧ ModelProcess c .movement Nat a ∧ StreamName.movement ∉ specUses c ∧
+      ¬ SeedIrrelevant counterEngine a .movement) ∧
+    ¬ C06_deterministic_mode_full := by
+  let c : UseCfg := { useMovements := true, movementStochastic := false }
+  let a : Act Nat Nat :=
+    movementAct (fun _ => [0]) (fun _ _ g => (g % 2, g + 1)) (fun _ _ g => (g, g + 1)) (fun _ _ g => (g, g + 1))
+      (fun _ _ _ => 0) (fun _ _ _ => 0) (fun _ _ d _ _ => d) 0
+  have hm : ModelProcess c .movement Nat a := .movement _ _ _ _ _ _ _ _
+  have hs : StreamName.movement ∉ specUses c := by decide
+  have hdep : ¬ SeedIrrelevant counterEngine a .movement := by
+    intro h
+    have := h (fun _ => 0) 1
+    revert this
+    decide
+  exact ⟨⟨c, a, rfl, rfl, by decide, rfl, hm, hs, hdep⟩,
+    fun hfull => hdep (hfull Nat counterEngine c .movement Nat a rfl hm .movement hs)⟩
+
+/-- F32. Library kernel with the anthropogenic kernel on, `dispersal_stochasticity = false`, both
+    kernel types radial (so both kernels are deterministic): the choice between the natural and
+    the anthropogenic kernel (`NaturalAnthropogenicDispersalKernel::operator()`) is still drawn
+    from the anthropogenic-dispersal stream per disperser; the disperser lands where the natural
+    kernel sends it with seed 1 and where the anthropogenic kernel sends it with seed 0 - while the
+    property does not allow the run to depend on that seed. Hence the full sentence fails. -/
+theorem C06_deterministic_dispersal_kernel_choice_fails :
+    (∃ (c : UseCfg) (a : Act Nat Nat), c.useAnthro = true ∧ c.dispersalStochastic = false ∧ f32Region c = true ∧
+      ModelProcess c .disperse Nat a ∧ StreamName.anthropogenicDispersal ∉ specUses c ∧
+      ¬ SeedIrrelevant counterEngine a .anthropogenicDispersal) ∧
+    ¬ C06_deterministic_mode_full := by
+  let c : UseCfg := { useAnthro := true, dispersalStochastic := false }
+  let a : Act Nat Nat :=
+    libraryKernelAct c true (fun g => (g % 2, g + 1)) (fun g => (g, g + 1)) (fun g => (g, g + 1)) 10 20
+  have hm : ModelProcess c .disperse Nat a := .kernel rfl _ _ _ _ _ _
+  have hs : StreamName.anthropogenicDispersal ∉ specUses c := by decide
+  have hdep : ¬ SeedIrrelevant counterEngine a .anthropogenicDispersal := by
+    intro h
+    have := h (fun _ => 0) 1
+    revert this
+    decide
+  exact ⟨⟨c, a, rfl, rfl, by decide, hm, hs, hdep⟩,
+    fun hfull => hdep (hfull Nat counterEngine c .disperse Nat a rfl hm .anthropogenicDispersal hs)⟩
+
+/-- The hypotheses of the partial theorem are satisfiable by a configuration in which the two
+    sets differ from the full set: deterministic establishment with one host, movements on with
+    `movement_stochasticity` on, anthropogenic uniform kernel under deterministic dispersal. -/
+example : ∃ c : UseCfg, c.establishmentStochastic = false ∧ c.useMovements = true ∧ c.useAnthro = true ∧
+    c.dispersalStochastic = false ∧
+    (c.hosts ≤ 1 ∨ c.establishmentStochastic = true) ∧ (c.useMovements = false ∨ c.movementStochastic = true) ∧
+    (c.useAnthro = false ∨ c.dispersalStochastic = true ∨ c.anthroKernel.randomByType = true ∨ c.injectedKernel ≠ none) ∧
+    StreamName.establishment ∉ specUses c ∧ StreamName.movement ∈ specUses c ∧
+    StreamName.anthropogenicDispersal ∈ specUses c ∧ StreamName.naturalDispersal ∉ specUses c :=
+  ⟨{ establishmentStochastic := false, useMovements := true, useAnthro := true, dispersalStochastic := false,
+     anthroKernel := .uniform }, rfl, rfl, rfl, rfl, by decide, by decide, by decide, by decide, by decide, by decide,
+   by decide⟩
 
 end Pops
